@@ -1,4 +1,5 @@
 import LcmProofs.SimPanel
+import LcmProofs.SimPath
 namespace Lcm
 
 /-! # C08 — agents are simulated independently of each other
@@ -37,6 +38,31 @@ theorem C08_period0_any_model (m : Model) (P : Params) (V : List (Tensor Ext))
     periodOut_record_getD _ _ _ _ _ _ i (by rw [statesAt_length]; exact hi),
     periodOut_record_getD _ _ _ _ _ _ i' (by rw [statesAt_length]; exact hi')]
   exact agentDecision_batch_irrelevant m P (groups m) 0 (simNext m P V 0) B B' i i' hi hi' hst hne
+
+/-- **whole paths, models without stochastic transitions**: the record (value, choices, states) of agent `i`
+in *every* period equals the record the agent gets when simulated alone; hence permuting the agents permutes
+the rows, any subset gives the same paths, duplicating an agent duplicates its path -/
+theorem C08_path_alone (m : Model) (P : Params) (V : List (Tensor Ext)) (init : List (List (Name × Rat)))
+    (draws draws' : Draws) (i : Nat) (hi : i < init.length) (hdet : Deterministic m)
+    (hne : ∀ t, (assignments (groups m).sC).filter
+      (agentFilt m P (groups m) t ((statesAt m P V [init.getD i []] draws' t).getD 0 [])) ≠ [])
+    (t : Nat) (ht : t < m.nPeriods) :
+    ((simulate m P V init draws true).getD t []).getD i default
+      = ((simulate m P V [init.getD i []] draws' true).getD t []).getD 0 default :=
+  record_alone m P V init draws draws' i hi hdet hne t ht
+
+/-- two batches (permutation / subset / duplication of each other) give an agent with the same initial state
+the same path -/
+theorem C08_paths_batch_irrelevant (m : Model) (P : Params) (V : List (Tensor Ext))
+    (B B' : List (List (Name × Rat))) (draws draws' draws'' : Draws) (i i' : Nat) (hi : i < B.length) (hi' : i' < B'.length)
+    (hst : B.getD i [] = B'.getD i' []) (hdet : Deterministic m)
+    (hne : ∀ t, (assignments (groups m).sC).filter
+      (agentFilt m P (groups m) t ((statesAt m P V [B.getD i []] draws'' t).getD 0 [])) ≠ [])
+    (t : Nat) (ht : t < m.nPeriods) :
+    ((simulate m P V B draws true).getD t []).getD i default
+      = ((simulate m P V B' draws' true).getD t []).getD i' default := by
+  rw [record_alone m P V B draws draws'' i hi hdet hne t ht,
+    record_alone m P V B' draws' draws'' i' hi' hdet (by rw [← hst]; exact hne) t ht, hst]
 
 /-- the number of agents is preserved over the periods (no agent is lost or duplicated by the loop) -/
 theorem C08_batch_size_constant (m : Model) (P : Params) (V : List (Tensor Ext))
